@@ -40,13 +40,18 @@ package dkv
 // the older versions in the restored tables: newest-by-sequence-number wins in every merge), and
 // it re-applies from the checkpoint's WAL exactly the operations - puts and deletes alike - on
 // keys THIS instance owns (after a rescale the WALs of other instances are replayed too).
+// (and its table-file numbers: a database restored into the directory the checkpoint was taken in -
+// an operator redeployed under its id - continues numbering after the checkpoint's tables, or its
+// first flush overwrites a file of the level list it has just loaded and of the retained checkpoint).
 //@ func DB.Start
-//@   property C03 C06 C07 C08
+//@   property C03 C06 C07 C08 C09
 //@   nosafety
 //@   exclusive
 //@   atcall Put: db.dataOwnership.OwnsKey(arg0) && same(arg0, entry.K) && same(arg1, entry.V) && !entry.Deleted
 //@   atcall Delete: db.dataOwnership.OwnsKey(arg0) && same(arg0, entry.K) && entry.Deleted
 //@   checks result == nil && latestCP != nil ==> db.seqNum >= latestCP.Levels.LatestSeqNum
+//@   checks result == nil && latestCP != nil ==> called(ContinueFrom)
+//@   atcall ContinueFrom: same(recv_, db.tableWriter) && arg0 == latestCP.Levels.NextTableNumber()
 //@   loop 0:
 //@     invariant db.seqNum >= latestCP.Levels.LatestSeqNum
 //@     step db.dataOwnership.OwnsKey(entry.K) ==> (entry.Deleted && called(Delete)) || (!entry.Deleted && called(Put))
